@@ -1,0 +1,41 @@
+//go:build verif
+// +build verif
+
+package utils
+
+// Contracts for gocv (comment-only; compiled out unless the tag "verif" is set, and empty then).
+
+//@ spec scaledMin(r ValueRange, s real) real = r.Min + (r.Max - r.Min) / 2.0 - (r.Max - r.Min) / 2.0 * s
+//@ spec scaledMax(r ValueRange, s real) real = r.Max - (r.Max - r.Min) / 2.0 + (r.Max - r.Min) / 2.0 * s
+
+//@ func (*ValueRange).Diff
+//@   property C14 C17 C18 C19
+//@   nopanic
+//@   ensures [diff] result == r.Max - r.Min
+//@ func (*ValueRange).ScaleEqually
+//@   property C17 C18
+//@   nopanic
+//@   ensures [scaled] fresh(result) && result.Min == scaledMin(*r, scale) && result.Max == scaledMax(*r, scale)
+//@ func NewValueRange
+//@   property C14 C16 C17
+//@   ensures [zero] fresh(result) && result.Min == 0.0 && result.Max == 0.0
+
+//@ func (*ExpFromZeroFunction).Evaluate
+//@   property C17 C19
+//@   ensures [formula] result == e.Multiplier * exp(e.Alpha * value) - e.Multiplier
+//@ func (*LinearFunctionParameters).Evaluate
+//@   property C05 C19
+//@   ensures [ok] ok <==> !(f.A == 0.0 && f.B == 0.0)
+//@   ensures [value] (ok ==> result == f.A * value + f.B) && (!ok ==> result == 0.0)
+
+//@ func NewValueInRangeGenerator$1
+//@   property C18
+//@   fnparam generator ensures 0.0 <= result && result < 1.0
+//@   ensures [in_range] exists u real :: 0.0 <= u && u < 1.0 && result == u * dif + valueRange.Min
+
+//@ func IsProbability
+//@   property C15 C18 C20
+//@   ensures result <==> (0.0 <= value && value <= 1.0)
+//@ func IsPositive
+//@   property C05 C20
+//@   ensures result <==> value > 0.0
